@@ -34,11 +34,11 @@ func (r *Rand) Intn(n int) int {
 	}
 	return int(r.U64() % uint64(n))
 }
-func (r *Rand) Int63() int64        { return int64(r.U64() >> 1) }
-func (r *Rand) Bool() bool          { return r.U64()&1 == 1 }
-func (r *Rand) Chance(p int) bool   { return r.Intn(100) < p } // p percent
+func (r *Rand) Int63() int64         { return int64(r.U64() >> 1) }
+func (r *Rand) Bool() bool           { return r.U64()&1 == 1 }
+func (r *Rand) Chance(p int) bool    { return r.Intn(100) < p } // p percent
 func (r *Rand) Range(lo, hi int) int { return lo + r.Intn(hi-lo+1) }
-func (r *Rand) Fork() *Rand         { return NewRand(r.U64()) }
+func (r *Rand) Fork() *Rand          { return NewRand(r.U64()) }
 
 // Weighted returns an index chosen proportionally to w.
 func (r *Rand) Weighted(w []int) int {
